@@ -581,9 +581,9 @@ def _consumers(ctx, rid, shell):
     f = prog.func('Sampler.f_live')
     cfgf = cfg_of(f)
     for r in walk_no_nested(f.node):
-        if not (isinstance(r, ast.Return) and isinstance(r.value, ast.Call) and
+        if not (isinstance(r, (ast.Return, ast.Assign)) and isinstance(r.value, ast.Call) and
                 dotted(r.value.func) == 'np.exp' and r.value.args):
-            continue
+            continue        # returned directly, or stored (e.g. memoised) and returned later
         a = r.value.args[0]
         ok = isinstance(a, ast.BinOp) and isinstance(a.op, ast.Sub) and all(
             isinstance(x, ast.Call) and (dotted(x.func) or '').endswith('logsumexp') and x.args
